@@ -532,6 +532,17 @@ namespace c11m
       m.note = "line " + std::to_string(lineno(pc.first)) + " <" + l.name + "> " + whole;
       return true;
     }
+    // deterministic variant: delete attribute k of line i (sweep over every attribute of a base text)
+    bool attr_delete_at(int i, int k)
+    {
+      if(i < 0 || i >= int(d.lines.size()) || k < 0 || k >= int(d.lines[i].attrs.size())) return false;
+      const Line& l = d.lines[i]; const Attr& a = l.attrs[std::size_t(k)];
+      std::size_t kb = d.text.rfind(a.key, a.vbeg); if(kb == std::string::npos || kb < l.beg) return false;
+      std::string whole = d.text.substr(kb, a.vend + 1 - kb);
+      m.text = splice(kb, a.vend + 1, ""); m.kind = "attr_delete";
+      m.note = "line " + std::to_string(lineno(i)) + " <" + l.name + "> " + whole + " (attribute sweep)";
+      return true;
+    }
     bool g_splice(const Doc& other)
     {
       // a block of lines of another valid text inserted at a random line boundary
